@@ -36,7 +36,7 @@ type MW struct {
 	MPP            bool
 	exactMelt      bool
 	Unknown        map[string]bool // secrets whose state the harness no longer claims to know
-	BeforeAudit    func() // runs in Finale after everything settled, before the drain audit
+	BeforeAudit    func()          // runs in Finale after everything settled, before the drain audit
 	forceRotate    bool
 	keysCacheStale bool
 }
